@@ -373,7 +373,11 @@ def w_misc_commands(ctx, rng, i):
     ctx.describe(channels=sel)
     with session(ctx, ppg, inst) as s:
         ppg.set_mode(str(rng.choice(["data", "prbs", "DATA", "Prbs"])), sel)
-        order = [int(rng.choice(ORDERS)), int(rng.choice([3, 8, 10, 13, 20, 40, 100, -5])), [int(rng.choice(ORDERS + [12, 25])) for _ in chans]][int(rng.integers(3))]
+        def any_order():     # "whatever values the caller requests": small integers, the sequence LENGTHS 2^n - 1 a caller may confuse with the order, powers of ten, huge values
+            k = int(rng.integers(6))
+            n = int(rng.integers(1, 41))
+            return [int(rng.choice(ORDERS)), int(rng.integers(-10, 70)), 2 ** n - 1, 2 ** n + int(rng.integers(0, 2)), 10 ** int(rng.integers(1, 12)), int(rng.choice([3, 8, 10, 13, 20, 40, 100, -5]))][k]
+        order = [int(rng.choice(ORDERS)), any_order(), [any_order() if rng.integers(2) else int(rng.choice(ORDERS + [12, 25])) for _ in chans]][int(rng.integers(3))]
         ppg.set_prbs_order(order, sel)
         ppg.set_bits_shift(int(rng.integers(-5, 100)), sel)
         ppg.enable_outputs(sel)
